@@ -824,6 +824,9 @@ func resourceCases() []*ProgCase {
 		{Note: "negative index far before the start", Prog: "BEGIN { a = [1]\n print a[-100000000] }"},
 		{Note: "huge printf width", Prog: "BEGIN { printf(\"%99999999999s\", \"x\") }"},
 		{Note: "self-referential value printed and serialised", Prog: "BEGIN { a = {}\n a.self = a\n print a\n print json(a)\n b = []\n b.push(b)\n print b }"},
+		{Note: "five thousand distinct patterns compiled in one run", Prog: "BEGIN { for (i = 0; i < 5000; i++) { if (\"p7\" ~ (\"^p\" + i + \"$\")) { c++ }\n if (\"q\" !~ (\"q\" + i)) { d++ } }\n print c, d }"},
+		{Note: "the same few patterns compiled a hundred thousand times", Prog: "{ for (i = 0; i < 40000; i++) { if ($ ~ \"^[0-9]+$\") { c++ }\n if ($ ~ (\"x\" + (i % 3))) { d++ } } }\nEND { print c, d }", Inputs: in},
+		{Note: "a hundred thousand distinct keys, strings and numbers", Prog: "BEGIN { o = {}\n for (i = 0; i < 100000; i++) { o[\"k\" + i] = \"v\" + i\n n += o[\"k\" + i].length() }\n print o.length(), n }"},
 		{Note: "recursion inside a moderately nested expression", Prog: "function f(n) { return " + rep("(", 40) + "f(n + 1)" + rep(")", 40) + " }\nBEGIN { f(0) }"},
 	}
 	// nesting multiplied by recursion depth: must end in an error, not in a Go stack overflow
